@@ -183,7 +183,7 @@ Definition flags_set (st : pst) : Prop := durable_flag st = true /\ Forall (fun 
 
 Lemma pstep_flags_set st e : no_clear e = true -> flags_set st -> flags_set (pstep st e).
 Proof.
-  intros He [Hd Hp]. destruct e as [v| |]; cbn [pstep]; unfold flags_set; cbn.
+  intros He [Hd Hp]. destruct e as [v|o|]; cbn [pstep]; unfold flags_set; cbn.
   - destruct v; [|discriminate]. split; [assumption|]. constructor; [reflexivity|assumption].
   - split; assumption.
   - split; [|constructor]. destruct (pending_flags st) as [|v l]; cbn; [assumption|]. inversion Hp; assumption.
@@ -215,21 +215,21 @@ Proof.
   - rewrite IH. rewrite Bool.andb_assoc. reflexivity.
 Qed.
 
-Lemma st_ok_kw0 total st : k_written st = O -> st_ok total st = true.
+Lemma st_ok_old0 total st : k_old st = O -> st_ok total st = true.
 Proof. intros H. unfold st_ok. apply forallb_forall. intros v _. rewrite H. destruct v; reflexivity. Qed.
 Lemma st_ok_kd total st : k_durable st = total -> st_ok total st = true.
 Proof. intros H. unfold st_ok. apply forallb_forall. intros v _. rewrite H, Nat.eqb_refl. rewrite Bool.orb_true_r. reflexivity. Qed.
 
-(* phase A: only superblock writes so far, nothing else issued *)
-Lemma phase_pre total pre : forallb is_sb pre = true -> forall st, k_written st = O ->
-  check_from total st pre = true /\ k_written (fold_left pstep pre st) = O.
+(* phase A: superblock writes and writes beyond the old end only *)
+Lemma phase_pre total pre : forallb harmless pre = true -> forall st, k_old st = O ->
+  check_from total st pre = true /\ k_old (fold_left pstep pre st) = O.
 Proof.
   induction pre as [|e t IH]; intros Hp st Hk; cbn [check_from fold_left].
-  - split; [|assumption]. rewrite Bool.andb_true_r. apply st_ok_kw0; assumption.
+  - split; [|assumption]. rewrite Bool.andb_true_r. apply st_ok_old0; assumption.
   - cbn [forallb] in Hp. apply Bool.andb_true_iff in Hp as [He Hp].
-    destruct e as [v| |]; try discriminate.
-    destruct (IH Hp (pstep st (WSb v)) Hk) as [I1 I2]. split; [|assumption].
-    rewrite I1, Bool.andb_true_r. apply st_ok_kw0; assumption.
+    assert (Hk' : k_old (pstep st e) = O) by (destruct e as [v|[|]|]; try discriminate; exact Hk).
+    destruct (IH Hp (pstep st e) Hk') as [I1 I2]. split; [|assumption].
+    rewrite I1, Bool.andb_true_r. apply st_ok_old0; assumption.
 Qed.
 
 (* phase B: the flag is durable and never cleared *)
@@ -249,7 +249,7 @@ Proof.
     assert (S0 : st_ok total st = true) by (apply st_ok_kd; assumption);
     rewrite S0; cbn [andb]; [reflexivity|].
   cbn [forallb] in Hp. apply Bool.andb_true_iff in Hp as [He Hp].
-  destruct e as [v| |]; try discriminate; apply IH; cbn [pstep k_durable k_written]; assumption.
+  destruct e as [v|o|]; try discriminate; apply IH; cbn [pstep k_durable k_written]; assumption.
 Qed.
 
 Lemma total_others_app t1 t2 : total_others (t1 ++ t2) = (total_others t1 + total_others t2)%nat.
@@ -261,30 +261,26 @@ Proof.
   unfold total_others in *. cbn [filter]. destruct e; try discriminate; cbn; apply IH; assumption.
 Qed.
 
-Lemma is_sb_not_other t : forallb is_sb t = true -> forallb not_other t = true.
-Proof.
-  intros H. apply forallb_forall. intros x Hx. rewrite forallb_forall in H. specialize (H x Hx). destruct x; try discriminate; reflexivity.
-Qed.
-
 Lemma resize_protocol_safe_lemma pre body post :
-  forallb is_sb pre = true -> forallb no_clear body = true -> forallb not_other post = true ->
+  forallb harmless pre = true -> forallb no_clear body = true -> forallb not_other post = true ->
   crash_safe (resize_trace pre body post).
 Proof.
   intros Hpre Hbody Hpost. apply protocol_check_sound_lemma. unfold protocol_check, resize_trace.
-  assert (Ht : total_others (pre ++ [WSb true; Sync] ++ body ++ [Sync] ++ post) = total_others body).
-  { rewrite !total_others_app. rewrite (total_others_none pre (is_sb_not_other pre Hpre)), (total_others_none post Hpost).
-    unfold total_others at 1 3. cbn. lia. }
-  rewrite Ht. set (total := total_others body).
+  assert (Ht : total_others (pre ++ [WSb true; Sync] ++ body ++ [Sync] ++ post) = (total_others pre + total_others body)%nat).
+  { rewrite !total_others_app. rewrite (total_others_none post Hpost).
+    unfold total_others at 2 4. cbn. lia. }
+  rewrite Ht. set (total := (total_others pre + total_others body)%nat).
   destruct (phase_pre total pre Hpre pinit eq_refl) as [A1 A2].
   rewrite check_from_app, A1. cbn [andb].
   set (sa := fold_left pstep pre pinit) in *.
+  assert (Ka : k_written sa = total_others pre) by (unfold sa; rewrite fold_kw; reflexivity).
   rewrite (check_from_app total [WSb true; Sync]).
   assert (B0 : check_from total sa [WSb true; Sync] = true).
-  { cbn [check_from]. rewrite !st_ok_kw0; try reflexivity; cbn [pstep k_written]; assumption. }
+  { cbn [check_from]. rewrite !st_ok_old0; try reflexivity; cbn [pstep k_old]; assumption. }
   rewrite B0. cbn [andb fold_left].
   set (sb := pstep (pstep sa (WSb true)) Sync).
   assert (Hsb : flags_set sb) by (split; [reflexivity|constructor]).
-  assert (Ksb : k_written sb = O) by exact A2.
+  assert (Ksb : k_written sb = total_others pre) by exact Ka.
   rewrite check_from_app, (phase_body total body Hbody sb Hsb). cbn [andb].
   set (sc := fold_left pstep body sb).
   assert (Ksc : k_written sc = total) by (unfold sc; rewrite fold_kw, Ksb; reflexivity).
